@@ -30,7 +30,8 @@ func predIndex(from, to *ssa.BasicBlock, succIdx int) int {
 func (ex *Exec) jump(st *State, f *Frame, succIdx int) bool {
 	from := f.block
 	to := from.Succs[succIdx]
-	if to.Index <= from.Index {
+	if to.Dominates(from) {
+		// back edge: to is a loop header
 		if f.loops == nil {
 			f.loops = map[int]int{}
 		}
@@ -45,6 +46,11 @@ func (ex *Exec) jump(st *State, f *Frame, succIdx int) bool {
 				ex.rep.Infeasible++
 			}
 			return false
+		}
+	} else if f.loops != nil {
+		// entering a loop header from outside restarts its unwinding count
+		if _, ok := f.loops[to.Index]; ok {
+			delete(f.loops, to.Index)
 		}
 	}
 	nphi := f.info.firstNon[to.Index]
@@ -126,6 +132,19 @@ func (ex *Exec) checkIndex(st *State, idx *Term, n int, what string) ([]*State, 
 	if ex.boundOK[bad.ID] {
 		return nil, true
 	}
+	// proven earlier under a path condition that is a prefix of the current one?
+	if pp, ok := ex.boundPC[bad.ID]; ok && len(pp) <= len(st.pc) {
+		same := true
+		for i := range pp {
+			if pp[i] != st.pc[i] {
+				same = false
+				break
+			}
+		}
+		if same {
+			return nil, true
+		}
+	}
 	if r0, _ := ex.sol.Check([]*Term{bad}, false, nil); r0 == Unsat {
 		ex.boundOK[bad.ID] = true
 		return nil, true
@@ -138,6 +157,12 @@ func (ex *Exec) checkIndex(st *State, idx *Term, n int, what string) ([]*State, 
 	}
 	r, m := ex.feasible(st, bad)
 	var extra []*State
+	if r == Unsat {
+		if ex.boundPC == nil {
+			ex.boundPC = map[int][]*Term{}
+		}
+		ex.boundPC[bad.ID] = append([]*Term(nil), st.pc...)
+	}
 	if r != Unsat {
 		if r == Unknown {
 			ex.rep.Unknowns = append(ex.rep.Unknowns, "bounds check undecided at "+ex.site(st.thread().top()))
